@@ -276,9 +276,10 @@ Lemma conn_stream_clean v sp producer h a reads (cbody : list frame -> list even
   (forall l0, quiet l0 = true -> clean (conn_end CbRecord a (snd (cbody (map FLog l0)))) = true) ->
   (h = false -> eff_init v sp producer h = IOk) ->
   eff_init v sp producer h <> IDead ->
+  (reads = true \/ a = AClose \/ a = ACancel) ->
   clean (snd (conn_stream v sp producer h CbRecord a reads cbody)) = true.
 Proof.
-  intros Hil Hbody Hless Hdead. unfold conn_stream.
+  intros Hil Hbody Hless Hdead Hra. unfold conn_stream.
   destruct (eff_init v sp producer h) as [|e|] eqn:E.
   - assert (Hi : ires sp = InitOk /\ (h = true -> exists x, hdr sp = Some x)).
     { unfold eff_init in E. destruct (ires sp) as [|e|]; [|discriminate E|destruct (checks_stream_result v); discriminate E].
@@ -290,7 +291,8 @@ Proof.
       pose proof (Hbody [] eq_refl) as B. cbn [map] in B.
       destruct (cbody []) as [es' z]. exact B.
     + cbn [fst]. pose proof (Hbody (ilogs sp) Hil) as B.
-      destruct (cbody (map FLog (ilogs sp))) as [es' z]. exact B.
+      destruct (cbody (map FLog (ilogs sp))) as [es' z]. cbn [snd] in *.
+      destruct Hra as [->|[->| ->]]; [exact B|destruct reads; exact B..].
   - destruct h; [reflexivity|]. specialize (Hless eq_refl). discriminate Hless.
   - exfalso. apply Hdead. reflexivity.
 Qed.
@@ -311,6 +313,7 @@ Proof.
       destruct (eff_init v sp true false); try reflexivity; discriminate.
     + match goal with Hx : negb (uncaught_fault _ _ _) = true |- _ => cbn in Hx end.
       intro E. rewrite E in *. discriminate.
+    + destruct a; [left; reflexivity|right; left; reflexivity|right; right; reflexivity|discriminate].
   - repeat (apply andb_true_iff in H as [H ?]).
     destruct c; try discriminate H.
     match goal with Hq : no_exc_logs _ = true |- _ => cbn in Hq; apply andb_true_iff in Hq as [Hil Hst] end.
@@ -321,6 +324,7 @@ Proof.
       destruct (eff_init v sp false false); try reflexivity; discriminate.
     + match goal with Hx : negb (uncaught_fault _ _ _) = true |- _ => cbn in Hx end.
       intro E. rewrite E in *. discriminate.
+    + destruct a; try discriminate; [right; left; reflexivity|right; right; reflexivity].
 Qed.
 
 (* ------------------------------------------------------------------ (3) histories *)
